@@ -149,8 +149,17 @@ def after_operation(ctx, n, op, dt=0.1):
     lib = ctx.lib
     asig = lib.AccSignal(a, dt)
     _ = asig.velocity, asig.displacement, asig.pgv
-    _measure(ctx, asig, 'isv')
-    OPS[op](asig)
+    for which in ALL_MEASURES:          # every measure was already computed for the earlier record (fills any memo)
+        _measure(ctx, asig, which)
+    if op == 'reset_values_new_record':
+        asig.reset_values(ctx.arr('b', n + 3, -30.0, 30.0))
+    elif op == 'edit_returned_series':
+        r = _measure(ctx, asig, 'arias')
+        r *= 0.5                        # a caller normalising the array it was given must not affect later calls
+        r2 = _measure(ctx, asig, 'cav')
+        r2 *= 0.5
+    else:
+        OPS[op](asig)
     fresh = lib.AccSignal(asig.values.copy(), dt)
     sc = (30.0 ** 2) * (10.0 * n) ** 3
     ok = []
@@ -245,7 +254,7 @@ def obligations(tier, seed):
     for which in ALL_MEASURES:
         for n in ((3,) if q else (3, 5)):
             yield Ob('definition', {'n': n, 'which': which, 'dt': 0.01, 'kind': 'i'}, query_ms=60000)
-    for op in OPS:
+    for op in list(OPS) + ['reset_values_new_record', 'edit_returned_series']:
         yield Ob('after_operation', {'n': 8, 'op': op}, query_ms=60000)
     for first in ALL_MEASURES:
         for n in ((3,) if q else (3, 6)):
